@@ -239,6 +239,11 @@ theorem pull_ended (cfg : Cfg) {q : QState δ} {m : Mach δ} {base d} (h : Ended
   | zero => simp [pull]
   | succ n ih => simp [pull, next_ended cfg h, ih, List.replicate_succ]
 
+theorem take_append_replicate_succ {α : Type} (l : List α) (n : Nat) (x : α) :
+    (l ++ List.replicate (n + 1) x).take n = (l ++ List.replicate n x).take n := by
+  rw [List.replicate_succ', ← List.append_assoc, List.take_append_of_le_length]
+  simp
+
 /-- `n` calls of `next`: the stand-alone stream, then `None` for ever; the invariant holds after
     the last call. -/
 theorem pull_resumable (cfg : Cfg) (hc : cfg.clearBall = true) :
@@ -273,8 +278,7 @@ theorem pull_resumable (cfg : Cfg) (hc : cfg.clearBall = true) :
         have := ih q' m' base s' w' d' hr
         simp only [pull, hnx, Script.stream, List.map_cons, List.cons_append, List.take_succ_cons]
         refine ⟨?_, this.2⟩
-        rw [this.1, List.replicate_succ', ← List.append_assoc, List.take_append_of_le_length]
-        simp
+        rw [this.1, take_append_replicate_succ]
 
 theorem stream_shape (sc : Script δ) :
     sc.stream = sc.answers.map Item.answer ++ sc.ending ∧
